@@ -13,8 +13,8 @@ TECHNIQUE = "bounded exhaustive enumeration of operator trees x contexts x listi
 RULE = ("instruction level: every operator tree of depth 1 (3 operators x all child sequences of length 2..3 over 4 base "
         "items) and depth 2 (3 operators x all ordered pairs over base items + depth-1 binary trees [quick: 3 base items]); thorough: every depth-3 tree combining a base item with a depth-2 binary tree over {mov,push} "
         "each alone and (depth 1, and depth 2 in thorough) in the context 'ret, T, ret' / 'T, ret'; operand level: every "
-        "tree of depth 1..2 over 3 operand names placed as only operand item, before and after a plain operand item; "
-        "$deref level: every $or of 2..3 alternatives in each deref field; long-listing family: $and / $and_any_order / $or sequences whose only occurrence touches each 4096..65536 instruction boundary of listings up to 65539 (thorough 131075) instructions; wide/deep family: $or of 8/16/25 alternatives with the matching one first/middle/last, $and_any_order of 4 and 5 children (with duplicates) on every listing of length 4 / 5, nesting chains of depth 3..6; the same group (1 or 2 children, each operator) written twice in one rule with different repetition counts; x EVERY listing up to the bound over the "
+        "tree of depth 1..2 over 3 operand names placed as only operand item, before and after a plain operand item; every depth-1 tree over 4 operand names that are substrings of each other (ax/rax, r8/r8d); "
+        "$deref level: every $or of 2..3 alternatives in each deref field (displacements positive and negative, with and without 0x, as YAML int); long-listing family: $and / $and_any_order / $or sequences whose only occurrence touches each 4096..65536 instruction boundary of listings up to 65539 (thorough 131075) instructions; wide/deep family: $or of 8/16/25 alternatives with the matching one first/middle/last, $and_any_order of 4 and 5 children (with duplicates) on every listing of length 4 / 5, nesting chains of depth 3..6; the same group (1 or 2 children, each operator) written twice in one rule with different repetition counts; x EVERY listing up to the bound over the "
         "family's near-miss alphabet. Oracle: reference matcher (union / sequence / permutations with each child used "
         "once): verdict, spans genuine and record aligned. Non-trivial = reference finds the rule or its first item "
         "matches somewhere.")
@@ -31,7 +31,11 @@ OPN = ["rax", "rbx", "0x1"]
 ALPHA_O = [("mov", ["%rax", "%rbx"]), ("mov", ["%rbx", "%rax"]), ("mov", ["$0x1", "%rax"]),
            ("mov", ["%rax", "%rbx", "%rcx"]), ("mov", ["%rax"]), ("mov", ["%rbx", "$0x1", "%rax"]), ("ret", [])]
 
-ALPHA_D = [("mov", ["0x8(%rax,%rbx,4)", "%rcx"]), ("mov", ["0x8(%rbx,%rax,4)", "%rcx"]), ("mov", ["0x10(%rax,%rbx,8)", "%rcx"]),
+OPN_SUB = ["ax", "rax", "r8", "r8d"]
+ALPHA_OS = [("mov", ["%rax", "%rbx"]), ("mov", ["%r8", "%r8d"]), ("mov", ["%r8d", "%rax"]), ("mov", ["%rax", "%rax"]), ("mov", ["%r8d", "%r8d"]),
+            ("mov", ["%ax", "%rax"]), ("mov", ["%rax", "%r8", "%r8d"]), ("mov", ["%r8d", "%rbx", "%r8d"]), ("mov", ["%r8"])]
+
+ALPHA_D = [("mov", ["-0x10(%rax,%rbx,4)", "%rcx"]), ("mov", ["-0x8(%rax,%rbx,4)", "%rcx"]), ("mov", ["0x8(%rax,%rbx,4)", "%rcx"]), ("mov", ["0x8(%rbx,%rax,4)", "%rcx"]), ("mov", ["0x10(%rax,%rbx,8)", "%rcx"]),
            ("mov", ["(%rax)", "%rcx"]), ("mov", ["0x8(%rcx)", "%rcx"]), ("mov", ["%rax", "%rcx"])]
 
 
@@ -71,6 +75,10 @@ def operand_rules(tier):
     pool = list(OPN) + list(trees1(OPN, lens=(2,)))
     d2 = [{op: [a, b]} for op in OPS for a, b in itertools.product(pool, repeat=2)
           if isinstance(a, dict) or isinstance(b, dict)]
+    # operand names that are substrings of each other (ax/rax, r8/r8d): one operand field can satisfy two children, so
+    # "each child used exactly once" needs a real assignment of children to fields
+    for t in trees1(OPN_SUB):
+        rules.append(e1.RuleCase("O/sub", [{"mov": [t]}], "opsub", want=("verdict", "aligned")))
     for t in d1 + d2:
         for cname, ops in (("only", [t]), ("first", [t, "rax"]), ("last", ["rbx", t])):
             rules.append(e1.RuleCase(f"O/{cname}", [{"mov": ops}], "oper", cfgs=((False, False), (False, True)) if cname == "only" else ((False, False),),
@@ -80,7 +88,7 @@ def operand_rules(tier):
 
 def deref_rules(tier):
     rules = []
-    regs, scales, offs = ["rax", "rbx", "%rcx"], [4, 8, "0x4"], ["0x8", "8", "0x10"]
+    regs, scales, offs = ["rax", "rbx", "%rcx"], [4, 8, "0x4"], ["0x8", "8", "0x10", "-0x10", "-8", 8]
     fields = {"main_reg": regs, "register_multiplier": regs, "constant_multiplier": scales, "constant_offset": offs}
     full = {"main_reg": "rax", "register_multiplier": "rbx", "constant_multiplier": 4, "constant_offset": "0x8"}
     for f, vals in fields.items():
@@ -162,7 +170,7 @@ def shards(tier):
 
 def build_lsets(h, tier):
     return {"instr": e1.ListingSet(h, ALPHA_I, 4), "oper": e1.ListingSet(h, ALPHA_O, 2),
-            "deref": e1.ListingSet(h, ALPHA_D, 1), "wd": e1.ListingSet(h, ALPHA_I, 5 if tier == "quick" else 6),
+            "deref": e1.ListingSet(h, ALPHA_D, 1), "opsub": e1.ListingSet(h, ALPHA_OS, 1), "wd": e1.ListingSet(h, ALPHA_I, 5 if tier == "quick" else 6),
             "wd4": e1.ListingSet(h, ALPHA_I, 4, minlen=4), "wd5": e1.ListingSet(h, ALPHA_I[:1] + ALPHA_I[2:], 5, minlen=5)}
 
 
